@@ -187,7 +187,7 @@ Report ==
 \* L2: the design's prediction equals the real output (fault-free, uncancelled, filter-free wire runs)
 \* (random byte flips of genuine replies are outside the design's packet model: whether a flipped reply is still decodable depends on
 \* decoder details - e.g. the quoted total-length field - that Matcher.tla does not carry; such batches are judged by C09 only)
-L2App(h) == h.par.entry # "crash" /\ WireRun(h) /\ Len(snt1(h)) >= 1 /\ Len(h.flt) = 0 /\ h.cancel < 0 /\ h.out.panic = ""
+L2App(h) == h.par.entry # "crash" /\ WireRun(h) /\ ~h.par.realclock /\ Len(snt1(h)) >= 1 /\ Len(h.flt) = 0 /\ h.cancel < 0 /\ h.out.panic = ""
             /\ ~\E i \in DOMAIN h.arr : Len(h.arr[i].tag) >= 8 /\ SubSeq(h.arr[i].tag, 1, 8) = "inj:flip"
 Drift ==
     (H.out.set /\ Wants("L2")) =>
